@@ -75,6 +75,10 @@ def combos(tier):
             if b[1] == "dense" or b[0] == "odeint":
                 out.append((f"uclchem/{gm}+grain-species", {"net.ucl": lines + ["H+,GRAIN-,NAN,H,GRAIN0,NAN,NAN,1.00e-10,0.00,0.0,10,41000", "E-,GRAIN0,NAN,GRAIN-,NAN,NAN,NAN,1.00e-10,0.00,0.0,10,41000"]},
                             ["uclchem"], gm, {}, b))
+        # a user ODE term written with a derived quantity that is itself defined through other derived quantities (the bundled cloud
+        # example's H2 dissociation term): the whole chain has to be declared in the equation bodies
+        out.append(("uclchem/rr07x+derived-in-ode-modifier", {"net.ucl": ucl}, ["uclchem"], "rr07x",
+                    {"ode_modifier": {"H2": {"factors": ["-H2dissociation"], "reactants": [["H2"]]}, "H": {"factors": ["2.0*H2dissociation", "-H2formation"], "reactants": [["H2"], ["H"]]}}}, b))
         out.append(("kida+cooling", {"net.kida": kida + ["H          e-                     H+         e-         e-                                 1.000e-10  0.000e+00  0.000e+00 2.00e+00 0.00e+00 logn  4     10    300  3  9 1  1"]},
                     ["kida"], "", {"cooling": ["CIC_HI"]}, b))
     if tier == "quick":
